@@ -36,8 +36,6 @@
 (***************************************************************************)
 EXTENDS Sequences, Naturals, FiniteSets
 
-CONSTANT T      \* life time of a cache entry, in ticks (>= 1)
-
 Min(a, b) == IF a < b THEN a ELSE b
 
 \* ------------------------------------------------------------- candidates
@@ -101,10 +99,11 @@ Outcomes(n, cache, db) ==
 \* (positive entries), prefixes that were asked and brought nothing back get
 \* an empty entry (negative) -- so that TLC checks, rather than assumes, that
 \* every entry equals what a fresh lookup returned when it was fetched.
-Store(cache, Q, rcv) ==
+\* life = life time of a new entry, in ticks (>= 1).
+Store(cache, Q, rcv, life) ==
     [p \in DOMAIN cache |->
-        IF \E x \in rcv : x.p = p THEN [ttl |-> T, hs |-> {x \in rcv : x.p = p}]
-        ELSE IF p \in Q THEN [ttl |-> T, hs |-> {}]
+        IF \E x \in rcv : x.p = p THEN [ttl |-> life, hs |-> {x \in rcv : x.p = p}]
+        ELSE IF p \in Q THEN [ttl |-> life, hs |-> {}]
         ELSE cache[p]]
 
 \* One tick of the clock: every entry loses one unit; at 0 it is unusable and
